@@ -12,7 +12,13 @@ from props.paths import path_tasks, path_canaries
 
 
 def tasks(tier):
-    return path_tasks("C13")
+    # (a worker that comes back with fewer results than boxes - an input ended early - must not pass for a finished level)
+    from props.combine_parents import CombineLevel
+    from props.chef_kernels import CookLevel
+    ts = [CombineLevel("bybox", short=True), CookLevel(True, short=True), CookLevel(False, short=True)]
+    for t in ts:
+        t.prop = "C13"
+    return path_tasks("C13") + ts
 
 
 def canaries(tier):
